@@ -21,6 +21,10 @@ type DecoSpec struct {
 	// Literal: the custom decoration is written out completely - every glyph field the Decoration type documents is given a
 	// value (from Custom, else a fixed one) - and used as it is, without Populate: a complete decoration needs no filling in
 	Literal bool `json:"literal,omitempty"`
+	// Base, Blank: the custom decoration is derived from a finished one (the built-in of that name, by constructor if
+	// ByCtor): the Custom glyphs are changed, the Blank fields are emptied, and Populate fills them in again
+	Base  string   `json:"base,omitempty"`
+	Blank []string `json:"blank,omitempty"`
 }
 
 var BuiltinDecos = []string{
@@ -66,7 +70,22 @@ func (d DecoSpec) Make() (deco decoration.Decoration, boxless bool) {
 			deco = decoration.NoBox()
 			boxless = true
 		}
+		if d.Base != "" && !d.FromNoBox && !d.Literal {
+			if d.ByCtor {
+				deco = ctor(d.Base)
+			} else {
+				deco = decoration.Named(d.Base)
+			}
+			boxless = d.Base == decoration.D_NONE
+		}
 		v := reflect.ValueOf(&deco).Elem()
+		if d.Base != "" && !d.FromNoBox && !d.Literal {
+			for _, k := range d.Blank {
+				if f := v.FieldByName(k); f.IsValid() && f.CanSet() {
+					f.SetString("")
+				}
+			}
+		}
 		keys := make([]string, 0, len(d.Custom))
 		for k := range d.Custom {
 			keys = append(keys, k)
@@ -120,6 +139,16 @@ func DecoGen() *rapid.Generator[DecoSpec] {
 				m[f] = glyphs[i%len(glyphs)]
 			}
 			fromNoBox := rapid.IntRange(0, 4).Draw(t, "from-nobox") == 0
+			if !fromNoBox && rapid.IntRange(0, 3).Draw(t, "derived") == 0 {
+				blank := rapid.SliceOfNDistinct(rapid.SampledFrom(DecoFields), 1, 8, rapid.ID[string]).Draw(t, "blank")
+				for _, b := range blank {
+					delete(m, b)
+				}
+				if len(m) == 0 {
+					m["CrossPiece"] = glyphs[0]
+				}
+				return DecoSpec{Custom: m, Base: rapid.SampledFrom(BuiltinDecos).Draw(t, "base"), ByCtor: rapid.Bool().Draw(t, "ctor"), Blank: blank}
+			}
 			return DecoSpec{Custom: m, FromNoBox: fromNoBox, Literal: !fromNoBox && rapid.IntRange(0, 3).Draw(t, "literal") == 0}
 		}
 		return DecoSpec{Name: rapid.SampledFrom(BuiltinDecos).Draw(t, "name"), ByCtor: rapid.Bool().Draw(t, "ctor")}
